@@ -1,4 +1,5 @@
 """READ — ReadIndex in Safe mode (DESIGN §5.7)."""
+import re
 from ..engine import obligation, require, require_all, fn_name, callers_of, call_args
 from ..an import show, strip_generics, walk
 from ..pat import ANY, V, match, call, fld, alt, contains
@@ -96,9 +97,19 @@ def recorded_index(cx):
                     d = dict(e[2])
                     ok_idx = from_param(h, site, d.get("index", ("?",)))
                     ok_req = from_param(h, site, d.get("req", ("?",)))
-        for c in cx.prog.call_sites_of("HashSet::insert"):
-            if c.fn is h:
-                ok_ack = ok_ack or from_param(h, site, call_args(cx, c)[1])
+        ins = [c for c in cx.prog.call_sites_of("HashSet::insert") if c.fn is h]
+        for c in ins:
+            ok_ack = ok_ack or from_param(h, site, call_args(cx, c)[1])
+        # ... and with nothing else: the set the single insert goes into was created empty (acks given to an
+        # earlier request were given BEFORE this one was issued)
+        for c in ins:
+            recv = call_args(cx, c)[0]
+            if recv[0] == "local":
+                ds = a.defs[recv[1]]
+                empty_ctor = bool(ds) and all(d[2] == "call" and re.search(r"(HashSet::default|HashSet::new|HashSet::with_capacity(_and_hasher)?|Default>::default)$", strip_generics(h.body.blocks[d[0]]["term"]["func"].get("const", {}).get("fn", {}).get("path", ""))) for d in ds)
+                ok_ack = ok_ack and empty_ctor and len(ins) == 1
+                if not (empty_ctor and len(ins) == 1):
+                    cx.bad("stored:acks-origin", "the ack set of a new read request starts with the leader's own id only (the set must be created empty and receive exactly that one id)", c)
     cx.check(ok_idx and ok_req and ok_ack, "stored", "add_request stores (req, index) as given and starts the ack set with the leader's own id")
 
 
